@@ -82,23 +82,23 @@ theorem openFile_memory_ne_none (old : Option Bytes) (m : Mode) (hm : m ≠ .rb)
 set_option linter.unusedSimpArgs false in
 /-- **the session model's STOR/APPE step stores what `storResult` says**, for every valid chunking of the payload
     (in fact for any list of read results whose blocks concatenate to the payload) -/
-theorem worker_stor_agrees (w : World) (s : SState) (p : Path) (v : UpVerb) (payload : Bytes)
+theorem worker_stor_agrees (k : Nat) (w : World) (s : SState) (p : Path) (v : UpVerb) (payload : Bytes)
     (reads : List Bytes) (hreads : (iterByBlock reads).flatten = payload)
     (hdc : s.dataConn = true) (hp : p ≠ []) (hpar : w.fs.isDir p.dropLast = true)
     (hnd : w.fs.lookup p ≠ some .dir) :
-    oldAt (worker w s p v.toVerb payload).1.fs p
-      = storResult .memory (oldAt w.fs p) v s.restartOffset reads
-    ∧ (worker w s p v.toVerb payload).2.2.replies = [226] := by
-  have hm : fileMode v.mode s.restartOffset ≠ .rb := by
-    unfold fileMode; cases v <;> by_cases h : s.restartOffset = 0 <;> simp [h, UpVerb.mode]
-  have hopen := fs_openFile_agrees w.fs p (fileMode v.mode s.restartOffset) hp hpar hnd hm
-  have hmode : (if s.restartOffset ≠ 0 then 3 else (if v.toVerb = Verb.stor then 1 else 2))
-      = (fileMode v.mode s.restartOffset).toNat := by
-    unfold fileMode; cases v <;> by_cases h : s.restartOffset = 0 <;> simp [h, UpVerb.mode, UpVerb.toVerb, Mode.toNat]
+    oldAt (workerK k w s p v.toVerb payload).1.fs p
+      = storResult .memory (oldAt w.fs p) v k reads
+    ∧ (workerK k w s p v.toVerb payload).2.2.replies = [226] := by
+  have hm : fileMode v.mode k ≠ .rb := by
+    unfold fileMode; cases v <;> by_cases h : k = 0 <;> simp [h, UpVerb.mode]
+  have hopen := fs_openFile_agrees w.fs p (fileMode v.mode k) hp hpar hnd hm
+  have hmode : (if k ≠ 0 then 3 else (if v.toVerb = Verb.stor then 1 else 2))
+      = (fileMode v.mode k).toNat := by
+    unfold fileMode; cases v <;> by_cases h : k = 0 <;> simp [h, UpVerb.mode, UpVerb.toVerb, Mode.toNat]
   rw [storResult_eq_writeAt, hreads]
   unfold storHandle
   rw [← hopen]
-  cases ho : w.fs.openFile p (fileMode v.mode s.restartOffset).toNat with
+  cases ho : w.fs.openFile p (fileMode v.mode k).toNat with
   | none =>
     -- with a directory parent and a non-directory target `MemoryPathIO._open` never fails
     exfalso
@@ -106,27 +106,27 @@ theorem worker_stor_agrees (w : World) (s : SState) (p : Path) (v : UpVerb) (pay
     exact openFile_memory_ne_none _ _ hm hopen.symm
   | some r =>
     obtain ⟨fs', c, pos⟩ := r
-    have hw : worker w s p v.toVerb payload =
-        ({ w with fs := fs'.set p (.file (Fs.writeAt c (if s.restartOffset ≠ 0 then s.restartOffset else pos) payload)) },
+    have hw : workerK k w s p v.toVerb payload =
+        ({ w with fs := fs'.set p (.file (Fs.writeAt c (if k ≠ 0 then k else pos) payload)) },
           { s with dataConn := false }, { replies := [226] }) := by
-      unfold worker
+      unfold workerK
       cases v <;> simp [hdc, UpVerb.toVerb, hmode, ho] <;> simp [UpVerb.toVerb] at hmode <;> simp [hmode, ho]
     rw [hw]
     simp only [Option.map_some]
     constructor
     · unfold oldAt
       rw [lookup_set _ _ _ hp, fs_writeAt_eq]
-      by_cases hk : s.restartOffset = 0 <;> simp [hk, BytesIO.seek]
+      by_cases hk : k = 0 <;> simp [hk, BytesIO.seek]
     · trivial
 
 /-- the session model's RETR step delivers the concatenation of the blocks of `retrBlocks` -/
-theorem worker_retr_agrees (w : World) (s : SState) (p : Path) (payload : Bytes) (bs : Nat) (hbs : 0 < bs)
+theorem worker_retr_agrees (k : Nat) (w : World) (s : SState) (p : Path) (payload : Bytes) (bs : Nat) (hbs : 0 < bs)
     (c : Bytes) (hdc : s.dataConn = true) (hf : w.fs.lookup p = some (.file c)) :
-    some (worker w s p .retr payload).2.2.data = (retrBlocks (some c) s.restartOffset bs).map List.flatten := by
-  unfold worker retrBlocks
+    some (workerK k w s p .retr payload).2.2.data = (retrBlocks (some c) k bs).map List.flatten := by
+  unfold workerK retrBlocks
   simp only [hdc, Bool.not_true, Bool.false_eq_true, ↓reduceIte, Fs.openFile, hf, openFile, Option.map_some,
     BytesIO.ofBytes]
-  by_cases hk : s.restartOffset = 0
+  by_cases hk : k = 0
   · simp [hk, retrLoop_flatten _ _ hbs]
   · simp [hk, retrLoop_flatten _ _ hbs, BytesIO.seek]
 
